@@ -74,6 +74,11 @@ fn main() {
             let mut log = Log::to_path(&out);
             mg::gen_scenarios(seed, args.num("segments", 60) as usize, args.flag("stable"), &mut log);
         }
+        "mg-cover" => {
+            let mut log = Log::to_path(&out);
+            let scripts = read_ndjson(&args.str("in", ""));
+            mg::cover_replay(&scripts, args.num("stride", 1) as usize, args.num("offset", 0) as usize, &mut log, seed);
+        }
         "mg-serde" => {
             let mut log = Log::to_path(&out);
             mg::gen_serde(seed, args.num("segments", 40) as usize, args.num("len", 50) as usize, &mut log);
